@@ -47,6 +47,31 @@ TREES: dict[str, Any] = {
     # 8 children under 3 non-leaf features: 2.666... -> 2.67
     "ratio-rounds-up-2": [(1, 1, [[], [], [(0, 1, [[(1, 3, [[], [], []])], []])]])],
 }
+
+
+def _leafs(n: int) -> list[Any]:
+    return [[] for _ in range(n)]
+
+
+def _chain(n: int, bottom: Any) -> Any:
+    spec = bottom
+    for i in range(n):
+        spec = [(i % 2, 1, [spec])]
+    return spec
+
+
+# larger and oddly shaped members of the family: code with a fast path, a threshold, a slice or a lexicographic order
+# that only shows from the tenth element on is right on every small tree
+TREES.update({
+    # a 12-member [4..7] group, an alternative and an or-group beside 11 single relations: 14 relations on one parent
+    "wide-12": [(4, 7, _leafs(12)), (1, 1, _leafs(2)), (1, 2, _leafs(2))] + [(i % 2, 1, [[]]) for i in range(11)],
+    # a group inside a group inside a group, members that are groups' hosts themselves
+    "nested-groups": [(1, 2, [[(2, 2, [[(1, 3, [[], [(0, 1, [[(1, 1, [[], []])]])], []])], []])], []])],
+    # five groups of different kinds under one parent
+    "five-groups": [(1, 1, _leafs(2)), (1, 2, _leafs(3)), (2, 3, _leafs(3)), (1, 5, _leafs(5)), (3, 4, _leafs(4))],
+    # nine levels, an or-group at the bottom
+    "deep-9": _chain(8, [(1, 2, [[], []])]),
+})
 # sibling names that differ only in case: a mandatory beside an optional look-alike, two look-alike group
 # members that are both variation points, look-alike leaves at different depths
 LOOK_ALIKE = [(1, 1, [[(0, 1, [[]])]]),            # a   mandatory, itself a variation point
